@@ -41,11 +41,20 @@ def build(spec, feedback=None):
     return inputs, blocks
 
 
-def consistent(circ):
+def consistent(circ, spec=None):
+    """every combinational block's output equals the documented function (table OPS, independent of the code under test)
+    of the current outputs of the blocks connected to its inputs"""
     bad = []
+    table = {f'c{k}': (op, srcs) for k, (op, srcs) in enumerate(spec or [])}
     for blk in circ.getblocks(edzed.CBlock):
-        want = blk.calc_output()
-        if blk.output != want: bad.append((blk.name, repr(blk.output), repr(want)))
+        if blk.name in table:
+            op, srcs = table[blk.name]
+            want = OPS[op][1](*[circ.findblock(s).output for s in srcs])
+        elif blk.name.startswith('_not_'):
+            want = not circ.findblock(blk.name[5:]).output
+        else:
+            want = blk.calc_output()
+        if blk.output != want or type(blk.output) is not type(want): bad.append((blk.name, repr(blk.output), repr(want)))
     return bad
 
 
@@ -61,7 +70,7 @@ async def drive(spec, changes, feedback=None):
     problems = []
     try:
         await circ.wait_init()
-        b = consistent(circ)
+        b = consistent(circ, spec)
         if b: problems.append(('after wait_init', b))
         for step in changes:
             if task.done(): break
@@ -69,7 +78,7 @@ async def drive(spec, changes, feedback=None):
                 circ.findblock(name).event('put', value=val)
             await settle()
             if task.done(): break
-            b = consistent(circ)
+            b = consistent(circ, spec)
             if b: problems.append((f'after {step}', b))
     except Exception as err:
         problems.append(('exception', repr(err)))
